@@ -127,6 +127,11 @@ def run(tier, seed, replay=None):
                'format, folding ranges, diagnostics rendering for every module and hover / definition / references / signature help / '
                'completion / code actions / rename at sampled positions incl. positions outside the text and deleted modules; '
                'distinct = distinct history; non-trivial = at least one collection reclaimed a string (heap stat shows unused slots)')
+    if not replay:
+        # marker coverage: Gallina model of gc.rs mark_module, H-cover proved relative to the decidable reliance predicate wfb,
+        # model mark sequence == real Heap::mark log per module
+        from checks import c11_cover
+        c11_cover.cover(ck, tier, seed)
     results = run_histories(hs)
     reported = 0
     for h, res in zip(hs, results):
